@@ -12,6 +12,7 @@ mod exec;
 mod rng;
 mod shape;
 mod srv;
+mod srvw;
 mod stransport;
 mod vclock;
 mod wire;
@@ -138,6 +139,25 @@ fn main() {
                 .iter()
                 .filter_map(|l| srv::parse_any(l))
                 .map(|s| srv::any_to_case(&s))
+                .collect();
+            write_cases(&out.expect("--out"), &cases);
+        }
+        ("srvw", "gen") => {
+            let mut rng = Rng::new(seed);
+            let mut w = open_out(&out);
+            for _ in 0..count {
+                writeln!(w, "{}", srvw::show(&srvw::gen(&mut rng))).unwrap();
+            }
+        }
+        ("srvw", "sweep") => {
+            let mut w = open_out(&out);
+            srvw::sweep(|s| writeln!(w, "{}", srvw::show(&s)).unwrap());
+        }
+        ("srvw", "run") => {
+            let cases: Vec<Case> = read_lines(&input)
+                .iter()
+                .filter_map(|l| srvw::parse(l))
+                .map(|s| srvw::to_case(&s))
                 .collect();
             write_cases(&out.expect("--out"), &cases);
         }
